@@ -21,6 +21,19 @@ func (ex *Exec) calleeName(f *ssa.Function) string {
 // contractFor finds the contract of a callee (by exact name, then by its generic origin).
 func (ex *Exec) contractFor(f *ssa.Function) (*Contract, string) {
 	n := ex.calleeName(f)
+	// kind-specific variant of a shared generic helper (prefixMismatch@alpha, ...)
+	if k := ex.opts["kind"]; k != "" {
+		for _, cand := range []string{n, ""} {
+			if cand == "" && f.Origin() != nil {
+				cand = ex.calleeName(f.Origin())
+			}
+			if cand != "" {
+				if c := ex.prog.CF.Contracts[cand+"@"+k]; c != nil {
+					return c, cand + "@" + k
+				}
+			}
+		}
+	}
 	if c := ex.prog.CF.Contracts[n]; c != nil {
 		return c, n
 	}
@@ -90,7 +103,17 @@ func (ex *Exec) callFunc(s *State, fr *Frame, c *ssa.Call, f *ssa.Function, bind
 	if fr.depth >= ex.callDepthLimit {
 		ex.unsupported("inlining depth exceeded at %s", full)
 	}
-	// inline
+	// inline; count the call (ghost: used by per-path accounting clauses such as size == old + new leaves)
+	{
+		key := "calls." + ex.calleeName(f)
+		n := int64(0)
+		if iv, ok := s.ghost[key].(IntV); ok {
+			if c, ok := iv.T.IntConst(); ok {
+				n = c.Int64()
+			}
+		}
+		s.ghost[key] = IntV{T: IntC(n + 1), W: 64, Signed: true}
+	}
 	nf := &Frame{fn: f, env: map[ssa.Value]Value{}, depth: fr.depth + 1, entry: fr.entry}
 	for i, p := range f.Params {
 		nf.env[p] = args[i]
@@ -130,6 +153,13 @@ func (ex *Exec) applyContract(s *State, fr *Frame, c *ssa.Call, f *ssa.Function,
 		vars[l.Label] = env.eval(l.Expr)
 	}
 	caller := normName(fr.fn.RelString(ex.prog.SSA.Pkg))
+	// documented, unproved assumptions the caller's contract makes at this call
+	if cc, _ := ex.contractFor(fr.fn); cc != nil {
+		for _, a := range cc.CallAssumes[name] {
+			s.assume(env.evalAssume(a.Expr))
+			ex.callAssumesUsed[caller+" -> "+name+": "+a.Src] = true
+		}
+	}
 	for i, r := range ct.Requires {
 		label := r.Label
 		if label == "" {
@@ -173,6 +203,9 @@ func (ex *Exec) applyContract(s *State, fr *Frame, c *ssa.Call, f *ssa.Function,
 			wholeArrays = true
 		}
 	}
+	if _, noalloc := ct.Opts["noalloc"]; noalloc {
+		wholeArrays = false // the callee allocates nothing (checked when the callee is verified)
+	}
 	if wholeArrays {
 		// allocation is monotone
 		oldAl := pre.H(ex, "alloc", ArrSort(SRef, SBool))
@@ -180,10 +213,8 @@ func (ex *Exec) applyContract(s *State, fr *Frame, c *ssa.Call, f *ssa.Function,
 		s.setH("alloc", newAl)
 		r := Term{"al!r", SRef}
 		s.assume(Term{"(forall ((al!r Ref)) (! " + Implies(Select(oldAl, r), Select(newAl, r)).S + " :pattern (" + Select(newAl, r).S + ")))", SBool})
-		oldAt := pre.H(ex, "atype", ArrSort(SRef, SInt))
-		newAt := ex.st.Fresh("H.atype.call", ArrSort(SRef, SInt))
-		s.setH("atype", newAt)
-		s.assume(Term{"(forall ((al!r Ref)) (! " + Implies(Select(oldAl, r), Eq(Select(oldAt, r), Select(newAt, r))).S + " :pattern (" + Select(newAt, r).S + ")))", SBool})
+		// everything the callee allocated belongs to T as well
+		s.assume(Term{"(forall ((al!r Ref)) (! " + Implies(And(Select(newAl, r), Not(Select(oldAl, r))), inTOf(ex.st, r)).S + " :pattern (" + Select(newAl, r).S + ")))", SBool})
 	}
 	// results
 	var results []Value
@@ -192,23 +223,54 @@ func (ex *Exec) applyContract(s *State, fr *Frame, c *ssa.Call, f *ssa.Function,
 		results = append(results, ex.fresh(s, "ret."+f.Name(), ex.subst(sig.Results().At(i).Type())))
 	}
 	post := &SpecEnv{ex: ex, cur: s, old: pre, vars: vars, results: results, fn: f, calleeMode: true, assigned: hv}
-	// frame facts for the simplifier: arrays havocked by this call agree with their
-	// pre-call versions outside the objects named in a frame(...) conjunct
-	for _, e := range ct.Ensures {
-		if fargs, ok := frameArgs(e.Expr); ok {
+	// frame facts for the simplifier: arrays havocked by this call agree with their pre-call
+	// versions outside the objects named in the contract's frame(...) clauses. Guarded frames
+	// (implies(c_i, frame(...))) are used only if the guards are exhaustive on this path; the
+	// exception lists are then united.
+	{
+		var frames []guardedFrame
+		for _, e := range ct.Ensures {
+			collectFrames(e.Expr, nil, &frames)
+		}
+		if len(frames) > 0 {
+			preEnv := &SpecEnv{ex: ex, cur: pre, old: pre, vars: vars, fn: f, calleeMode: true}
 			var except []string
 			good := true
-			for _, a := range fargs {
-				for _, env := range []*SpecEnv{{ex: ex, cur: pre, old: pre, vars: vars, fn: f, calleeMode: true}, post} {
-					func() {
-						defer func() {
-							if recover() != nil {
-								good = false
-							}
-						}()
-						except = append(except, env.refTerm(env.eval(a), a).S)
-					}()
+			unguarded := false
+			var guardTerms []Term
+			for _, gf := range frames {
+				if len(gf.guards) == 0 {
+					unguarded = true
 				}
+				for _, a := range gf.args {
+					for _, env := range []*SpecEnv{preEnv, post} {
+						func() {
+							defer func() {
+								if recover() != nil {
+									good = false
+								}
+							}()
+							except = append(except, env.refTerm(env.eval(a), a).S)
+						}()
+					}
+				}
+				func() {
+					defer func() {
+						if recover() != nil {
+							good = false
+						}
+					}()
+					var gs []Term
+					for _, g := range gf.guards {
+						gs = append(gs, post.nopol().evalBool(g))
+					}
+					guardTerms = append(guardTerms, And(gs...))
+				}()
+			}
+			if good && !unguarded {
+				o := &Obligation{Name: "aux/frame-guards", Assume: s.pc[:len(s.pc):len(s.pc)], Goal: Or(guardTerms...)}
+				res, _, _ := runSolver(context.Background(), "z3-new", o.Query(ex.st), 3*time.Second, false)
+				good = res == "unsat"
 			}
 			if good {
 				s.serial++
@@ -223,11 +285,38 @@ func (ex *Exec) applyContract(s *State, fr *Frame, c *ssa.Call, f *ssa.Function,
 					}
 				}
 			}
-			break
 		}
 	}
 	for _, e := range ct.Ensures {
 		s.assume(post.evalAssume(e.Expr))
+	}
+	// learn the class tag of every slot the callee may have relinked, if it is determined on
+	// this path (keeps later class dispatches in specifications syntactically resolved)
+	if ex.mode == ModeInt && !(ct.HasAssigns && len(ct.Assigns) == 0) {
+		for _, a := range args {
+			pv, ok := a.(PtrV)
+			if !ok || pv.Kind != PSlot || pv.Field != "" {
+				continue
+			}
+			tg := s.loadSlot(ex, pv.Obj, pv.Idx).Fields["tag"].(IntV).T
+			if _, isC := tg.IntConst(); isC {
+				continue
+			}
+			// candidates: the class before the call and its neighbours (grow / shrink)
+			cands := []int64{0, 1, 2, 3, 4}
+			if c, ok := pre.loadSlot(ex, pv.Obj, pv.Idx).Fields["tag"].(IntV).T.IntConst(); ok {
+				cands = []int64{c.Int64(), c.Int64() + 1, c.Int64() - 1}
+			}
+			for _, k := range cands {
+				if k < 0 || k > 4 {
+					continue
+				}
+				if ex.provablyConst(s, tg, k) {
+					s.assume(Eq(tg, IntC(k)))
+					break
+				}
+			}
+		}
 	}
 	var v Value
 	switch len(results) {
@@ -343,6 +432,18 @@ func (ex *Exec) appendOp(s *State, fr *Frame, c *ssa.Call, args []Value) Value {
 	}
 	newLen := IAdd(dst.Len, src.Len)
 	fits := ICmp("<=", newLen, dst.Cap)
+	if !fits.IsFalse() && !fits.IsTrue() {
+		// decide the capacity test on this path if the solver can (three-index slices etc.)
+		o := &Obligation{Name: "aux/append-fits", Assume: s.pc[:len(s.pc):len(s.pc)], Goal: Not(fits)}
+		if res, _, _ := runSolver(context.Background(), "z3-new", o.Query(ex.st), 2*time.Second, false); res == "unsat" {
+			fits = False
+		} else {
+			o2 := &Obligation{Name: "aux/append-fits", Assume: s.pc[:len(s.pc):len(s.pc)], Goal: fits}
+			if res, _, _ := runSolver(context.Background(), "z3-new", o2.Query(ex.st), 2*time.Second, false); res == "unsat" {
+				fits = True
+			}
+		}
+	}
 	if fits.IsFalse() {
 		return ex.appendFresh(s, dst, src, int(n.Int64()))
 	}
@@ -351,11 +452,7 @@ func (ex *Exec) appendOp(s *State, fr *Frame, c *ssa.Call, args []Value) Value {
 		// Path-based execution forks through the continuation mechanism of the caller:
 		// we encode the two outcomes with an ite on every component instead of forking,
 		// keeping a single path: in-place writes are guarded stores.
-		fresh := ex.st.Fresh("append.obj", SRef)
-		al := s.H(ex, "alloc", ArrSort(SRef, SBool))
-		s.assume(Not(Eq(fresh, Null)))
-		s.assume(Not(Select(al, fresh)))
-		s.setH("alloc", Store(al, fresh, True))
+		fresh := s.newObject(ex, "append", bytesTypeID)
 		b := s.H(ex, "B", ex.bSort())
 		// contents of the fresh object: copy of dst then src
 		na := ex.st.Fresh("append.data", ArrSort(SInt, ex.byteSort()))
@@ -435,7 +532,20 @@ func (ex *Exec) provablyConst(s *State, t Term, k int64) bool {
 		return c.Int64() == k
 	}
 	o := &Obligation{Name: "aux/const", Assume: s.pc[:len(s.pc):len(s.pc)], Goal: Eq(t, IntC(k))}
-	res, _, _ := runSolver(context.Background(), "z3-new", o.Query(ex.st), 2*time.Second, false)
+	return auxValid(ex.st, o, time.Second)
+}
+
+var auxCache = map[string]bool{}
+
+// auxValid: quick validity query used to simplify symbolic execution (never a verdict).
+func auxValid(st *Symtab, o *Obligation, timeout time.Duration) bool {
+	q := o.Query(st)
+	key := cacheKey(q, "aux")
+	if v, ok := auxCache[key]; ok {
+		return v
+	}
+	res, _, _ := runSolver(context.Background(), "z3-new", q, timeout, false)
+	auxCache[key] = res == "unsat"
 	return res == "unsat"
 }
 
@@ -691,6 +801,15 @@ func (ex *Exec) external(s *State, fr *Frame, c *ssa.Call, full string, f *ssa.F
 		return ex.fromIdx(r), true
 	case "(*sync.Pool).Get":
 		note()
+		{
+			n := int64(0)
+			if iv, ok := s.ghost["calls.sync.Pool.Get"].(IntV); ok {
+				if c, ok := iv.T.IntConst(); ok {
+					n = c.Int64()
+				}
+			}
+			s.ghost["calls.sync.Pool.Get"] = IntV{T: IntC(n + 1), W: 64, Signed: true}
+		}
 		return ex.poolGet(s, fr, c, args), true
 	case "(*sync.Pool).Put":
 		note()
@@ -891,6 +1010,22 @@ func (ex *Exec) abstractCall(s *State, fr *Frame, c *ssa.Call, fv FuncV, args []
 
 func (ex *Exec) invoke(s *State, fr *Frame, c *ssa.Call, recv Value, m *types.Func, args []Value, k cont) {
 	switch m.Name() {
+	case "getKey", "getTransformKey":
+		// method of the leaf type parameter L: resolved to the leaf type this verification run is bound to
+		leaf := ex.opts["leaf"]
+		if leaf == "" {
+			ex.unsupported("call of %s on a leaf type parameter without 'opt leaf <type>'", m.Name())
+		}
+		fn := ex.prog.Funcs[normName(fmt.Sprintf("(*%s[V]).%s", leaf, m.Name()))]
+		rv, ok := recv.(RefV)
+		if fn == nil || !ok {
+			ex.unsupported("cannot resolve %s for leaf type %s", m.Name(), leaf)
+		}
+		obj := ex.prog.Pkg.Types.Scope().Lookup(leaf)
+		rv.Typ = obj.Type()
+		ex.castObligation(s, fr, rv.T, rv.Typ, c)
+		ex.callFunc(s, fr, c, fn, nil, []Value{rv}, k)
+		return
 	case "Transform":
 		// abstract codec (BinaryComparableKey hypothesis): two fresh byte slices with equal
 		// contents determined by the key (pure, non-retaining)
@@ -921,7 +1056,7 @@ func (ex *Exec) codecTransform(s *State, key Value) SliceV {
 	ex.st.Func("enc.data", []string{kt.Sort}, ArrSort(SInt, ex.byteSort()))
 	ln := App(SInt, "enc.len", kt)
 	s.assumeOnce(And(ICmp("<=", IntC(0), ln), ICmp("<", ln, IntBig(new(big.Int).Lsh(bigOne, 31)))))
-	obj := s.newObject(ex, "enc", 0)
+	obj := s.newObject(ex, "enc", bytesTypeID)
 	b := s.H(ex, "B", ex.bSort())
 	s.setH("B", Store(b, obj, App(ArrSort(SInt, ex.byteSort()), "enc.data", kt)))
 	bl := s.H(ex, "blen", ArrSort(SRef, SInt))
